@@ -772,6 +772,38 @@ def stream_repr(chk, i, rng):
         if not unchanged(V, snap):
             chk.fail(f"repr:args-modified:Q:{name}", f"the caller's query array ({name}) was modified", rp, layer="L3")
         chk.dist["repr:Q:" + name] += 1
+    # --- float32 query rows with ARBITRARY values (not exactly representable thresholds): predict must compare in double precision,
+    #     i.e. give what the same rows widened to float64 give; rows sit on / next to the thresholds rounded to float32
+    Xa = rng.normal(size=(n, d)) if i % 3 else np.round(rng.normal(size=(n, d)), 1)
+    ma = impl.Kauri(**dict(p, kernel="linear")).fit(Xa)
+    tha = [(f, t) for f, t in zip(ma.tree_.features, ma.tree_.thresholds) if t is not None]
+    rows = [rng.normal(size=d).astype(np.float32) for _ in range(4)]
+    for f, t in tha:
+        t32 = np.float32(t)
+        for v in (t32, np.nextafter(t32, np.float32(np.inf)), np.nextafter(t32, np.float32(-np.inf))):
+            r = Xa[int(rng.integers(0, n))].astype(np.float32)
+            r[f] = v
+            rows.append(r)
+    Q32 = np.array(rows, dtype=np.float32).reshape(len(rows), d)
+    Q64 = Q32.astype(np.float64)
+    snap = snapshot(Q32)
+    rp = dict(replay, Xa=Xa.tolist(), Q32=Q64.tolist(), thresholds=[t for _, t in tha])
+    ok, p32 = guarded(chk, "predict", "X", "float32-arbitrary", lambda: ma.predict(Q32), rp)
+    p64 = ma.predict(Q64)
+    boxa = leaf_boxes(ma.tree_, d)
+    for j in range(len(Q64)):
+        inside = [a for a, (b, _) in boxa[0].items() if all(b[f][0] < Q64[j, f] <= b[f][1] for f in range(d))]
+        if len(inside) != 1 or ma.tree_.target[inside[0]] != int(p64[j]):
+            chk.fail("repr:predict:region", f"query row {Q64[j].tolist()} is not labelled by the leaf region containing it", rp, layer="L3")
+            break
+    if ok and p32.tolist() != p64.tolist():
+        chk.fail("repr:predict:float32-arbitrary", f"predict of float32 rows {p32.tolist()} differs from predict of the same rows widened to float64 {p64.tolist()} "
+                                                   "(rows are compared with thresholds rounded to float32?)", rp, layer="L3")
+    if not unchanged(Q32, snap):
+        chk.fail("repr:args-modified:Q:float32", "the caller's float32 query array was modified", rp, layer="L3")
+    chk.dist["repr:Q:float32-arbitrary"] += 1
+    if any(float(np.float32(t)) != t for _, t in tha):
+        chk.dist["repr:Q:float32-arbitrary:threshold-not-float32"] += 1
     nsplit = sum(1 for a in ref.tree_.children_left if a != -1)
     chk.count(("repr", n, d, kernel, integral, binary, nsplit) if nsplit >= 1 else None)
 
